@@ -774,6 +774,7 @@ func (s *Summarizer) callForm(call *ssa.Call, env termEnv) *Form {
 				}
 			}
 		}
+		s.seedFieldTerms(f, c.Args, env, env2)
 		nInexact := len(s.Inexact)
 		ff := s.FuncForm(f, env2)
 		if u, _ := ff.HasUnknown(); u && len(c.Args) >= 1 {
@@ -979,6 +980,7 @@ func (s *Summarizer) binopForm(x *ssa.BinOp, env termEnv) *Form {
 							}
 						}
 					}
+					s.seedFieldTerms(f, call.Common().Args, env, env2)
 					return wrap(s.NilResultForm(f, idx, env2))
 				}
 			}
@@ -1222,6 +1224,9 @@ func (s *Summarizer) blockCond(b *ssa.BasicBlock, env termEnv, what string) *For
 		var cond func(x *ssa.BasicBlock) *Form
 		// edge: condition of reaching x through its predecessor p (p not inside a loop)
 		edge := func(p, x *ssa.BasicBlock) *Form {
+			if callsNoReturn(p) {
+				return fFalse() // the block ends in a call that never returns (a helper that always panics)
+			}
 			c := cond(p)
 			if iff, ok := p.Instrs[len(p.Instrs)-1].(*ssa.If); ok && p.Succs[0] != p.Succs[1] {
 				ec := s.ValueForm(iff.Cond, env)
@@ -2114,7 +2119,104 @@ func (s *Summarizer) repoCallee(call *ssa.Call, env termEnv) (*ssa.Function, ter
 			}
 		}
 	}
+	s.seedFieldTerms(f, call.Common().Args, env, env2)
 	return f, env2, true
+}
+
+// localFieldStore: the one value stored to field #field of the local struct that v designates (a local variable,
+// a literal, or a load of one).
+func localFieldStore(v ssa.Value, field int, depth int) (ssa.Value, bool) {
+	if depth > 4 {
+		return nil, false
+	}
+	switch x := v.(type) {
+	case *ssa.UnOp:
+		if x.Op == token.MUL {
+			return localFieldStore(x.X, field, depth+1)
+		}
+	case *ssa.MakeInterface:
+		return localFieldStore(x.X, field, depth+1)
+	case *ssa.Alloc:
+		var val ssa.Value
+		n := 0
+		for _, ref := range *x.Referrers() {
+			switch y := ref.(type) {
+			case *ssa.FieldAddr:
+				if y.Field != field {
+					continue
+				}
+				for _, r2 := range *y.Referrers() {
+					if st, ok := r2.(*ssa.Store); ok && st.Addr == ssa.Value(y) {
+						val = st.Val
+						n++
+					}
+				}
+			case *ssa.Store:
+				if y.Addr == ssa.Value(x) {
+					if c, ok := y.Val.(*ssa.Const); !ok || c.Value != nil {
+						if n == 0 {
+							return localFieldStore(y.Val, field, depth+1)
+						}
+						return nil, false
+					}
+				}
+			}
+		}
+		if n == 1 {
+			return val, true
+		}
+	}
+	return nil, false
+}
+
+// seedFieldTerms: in callee f, reads of string fields of a struct parameter that the caller filled with terms
+// are those terms.
+func (s *Summarizer) seedFieldTerms(f *ssa.Function, args []ssa.Value, env, env2 termEnv) {
+	for i, prm := range f.Params {
+		if i >= len(args) {
+			continue
+		}
+		t := prm.Type()
+		if pt, ok := t.Underlying().(*types.Pointer); ok {
+			t = pt.Elem()
+		}
+		if _, isStruct := t.Underlying().(*types.Struct); !isStruct {
+			continue
+		}
+		// the parameter, and the local copy of a struct parameter
+		bases := map[ssa.Value]bool{prm: true}
+		for _, ref := range *prm.Referrers() {
+			if st, ok := ref.(*ssa.Store); ok && st.Val == ssa.Value(prm) {
+				bases[st.Addr] = true
+			}
+		}
+		for _, b := range f.Blocks {
+			for _, in := range b.Instrs {
+				v, ok := in.(ssa.Value)
+				if !ok || !isStringish(v.Type()) {
+					continue
+				}
+				var base ssa.Value
+				field := -1
+				switch x := in.(type) {
+				case *ssa.Field:
+					base, field = x.X, x.Field
+				case *ssa.UnOp:
+					if fa, ok := x.X.(*ssa.FieldAddr); ok && x.Op == token.MUL {
+						base, field = fa.X, fa.Field
+					}
+				}
+				if field < 0 || !bases[base] {
+					continue
+				}
+				if val, ok := localFieldStore(args[i], field, 0); ok {
+					if tm, ok := s.termOf(val, env); ok {
+						env2[v] = tm
+					}
+				}
+			}
+		}
+	}
 }
 
 // bindValue records (for the rest of the analysis: parameters belong to one function, and a helper called with
@@ -2323,4 +2425,19 @@ func (s *Summarizer) intAltLenCmp(x *ssa.BinOp, env termEnv) *Form {
 		neg = fNot(atom(&LAtom{Kind: "search", Regex: rc, Term: t, Desc: fmt.Sprintf("len(%s)>%d", termStr(t), max)}))
 	}
 	return &Form{Op: "over2", Sub: []*Form{pos, neg}}
+}
+
+// callsNoReturn: the block calls a function of the repository that has no return instruction (it always panics).
+func callsNoReturn(b *ssa.BasicBlock) bool {
+	for _, in := range b.Instrs {
+		c, ok := in.(*ssa.Call)
+		if !ok {
+			continue
+		}
+		g := staticCallee(c.Common())
+		if g != nil && g.Blocks != nil && g.Pkg != nil && strings.HasPrefix(g.Pkg.Pkg.Path(), modulePath) && len(Returns(g)) == 0 {
+			return true
+		}
+	}
+	return false
 }
